@@ -2,9 +2,10 @@ SPECIFICATION Spec
 CONSTANTS
   MAXORIG = 2
   ANSWER_ERRORS = FALSE
+  GEN = TRUE
   VERIFY_CKSUM = TRUE
   UNK_ERR_IS_ERR = TRUE
   ROUTER_VERIFY_CKSUM = TRUE
-INVARIANTS NoErrorLoop NoReplyToMalformed EchoFaithful AtMostOneAnswer ChainBounded TotalBounded
+INVARIANTS NoErrorLoop NoReplyToMalformed EchoFaithful AtMostOneAnswer ChainBounded TotalBounded Emit
 PROPERTY Termination
 CHECK_DEADLOCK FALSE
